@@ -727,6 +727,7 @@ type obsSR struct {
 	known   bool
 	snap    streamState
 	nBlocks int
+	ptr     *rtcp.SenderReport // the object the interceptor handed over (a writer may queue it)
 }
 
 type recWriter struct {
@@ -746,7 +747,7 @@ func (w *recWriter) Write(pkts []rtcp.Packet, _ interceptor.Attributes) (int, er
 			w.other[fmt.Sprintf("%T", p)]++
 			continue
 		}
-		o := obsSR{v: v, nPkts: len(pkts), nBlocks: len(sr.Reports)}
+		o := obsSR{v: v, nPkts: len(pkts), nBlocks: len(sr.Reports), ptr: sr}
 		o.sr = rtcp.SenderReport{SSRC: sr.SSRC, NTPTime: sr.NTPTime, RTPTime: sr.RTPTime, PacketCount: sr.PacketCount, OctetCount: sr.OctetCount}
 		if m := w.mon.bySSRC[sr.SSRC]; m != nil {
 			o.known = true
